@@ -9,3 +9,10 @@ func VerifResetWeb() { webRegistered = false }
 // VerifEnableProtectionAfterPause runs the body of the protection re-enable
 // goroutine.
 func (s *Server) VerifEnableProtectionAfterPause() { s.enableProtectionAfterPause() }
+
+// VerifClaimProtectionUpdate does what the request that notices an expired
+// pause does before it starts the re-enable goroutine: it claims the update, so
+// that no other request starts a second one.  ok is false if it was claimed.
+func (s *Server) VerifClaimProtectionUpdate() (ok bool) {
+	return s.protectionUpdateInProgress.CompareAndSwap(false, true)
+}
